@@ -274,6 +274,10 @@ func PbToBlock(b *middleware_pb.Block) *Block {
 		return nil
 	}
 	h := PbToBlockHeader(b.Header)
+	if h == nil {
+		// no usable header (absent or malformed time fields): no block, rather than a block without header
+		return nil
+	}
 	txs := PbToTransactions(b.Transactions)
 	block := Block{Header: h, Transactions: txs}
 	return &block
